@@ -366,9 +366,6 @@ def replay(ctx):
     rp = json.load(open(ctx.replay))
     case = rp["case"]
     if case.get("part") == "bind":
-        sigs_ = B.sigs()
-        si = sigs_.index(case["sig"]) if case["sig"] in sigs_ else None
-        import asyncio  # noqa: F401
         out = os.path.join(ctx.scratch, "replay_bind.json")
         st = run_workers("harness.drivers.c03", "work_replay_bind", [{"sig": case["sig"], "shape": case["shape"], "out": out}],
                          ctx.scratch, nproc=1)[0]
